@@ -206,7 +206,34 @@ def _accepting_facts(P, f, elt, var, depth=0):
                     out.append(fa | frozenset(_expand(a, df) for a in alt))
             # falling off the end returns None: rejecting
         return out
+    if isinstance(elt, ast.Call) and isinstance(elt.func, ast.Name) and len(elt.args) == 1 and norm(elt.args[0]) == var and not elt.keywords and depth < 2:
+        # a local closure or a module-level predicate
+        h = next((n for n in ast.walk(f.node) if isinstance(n, ast.FunctionDef) and n is not f.node and n.name == elt.func.id), None)
+        if h is None:
+            mf = f.module.functions.get(elt.func.id) if hasattr(f.module, "functions") else None
+            h = mf.node if mf is not None else None
+        if h is None or len(h.args.args) != 1 or h.args.vararg or h.args.kwarg or h.args.kwonlyargs:
+            return None
+        return _predicate_paths(h.node.body if hasattr(h, "node") else h.body, h.args.args[0].arg, var)
     return [frozenset(alt) for alt in alts_of(elt, True)]
+
+
+def _predicate_paths(stmts, param, var):
+    """fact sets under which a predicate body returns true, its parameter renamed to `var`"""
+    from ..pairing import alts_of
+    body = [s_ for s_ in stmts if not (isinstance(s_, ast.Expr) and isinstance(s_.value, ast.Constant))]
+    out = []
+    for oc, fa, df in _stmt_paths(body, frozenset(), {param: var}, None):
+        if oc is None:
+            return None
+        if isinstance(oc, tuple) and oc[0] == "return" and oc[1] is not None:
+            if isinstance(oc[1], ast.Constant):
+                if oc[1].value is True:
+                    out.append(fa)
+                continue
+            for alt in alts_of(oc[1], True):
+                out.append(fa | frozenset(_expand(a, df) for a in alt))
+    return out
 
 
 def _has_bp_atom(facts, var, bp_names):
@@ -232,7 +259,7 @@ def _raising_validation(f, bp_names, excluded, before):
     """`for x in S: if <x does not belong>: raise ...` ahead of the write: every element that gets past the loop was checked"""
     for lp in walk_local(f.node):
         if not (isinstance(lp, ast.For) and norm(lp.iter) == excluded and lp.lineno < before and not lp.orelse
-                and any(isinstance(x, ast.Raise) for x in ast.walk(lp))):
+                and any(isinstance(x, (ast.Raise, ast.Assert)) for x in ast.walk(lp))):  # (`if c: raise AssertionError` is loaded as an assert)
             continue
         if getattr(lp, "_parent", None) is not f.node:
             continue  # must dominate the write: a statement of the function body itself
